@@ -1,12 +1,14 @@
 import Driver.Cast
 import Driver.Page
 import Driver.Hash
+import Driver.Streamer
 
 def dispatch (line : String) : String :=
   match (line.trimAscii.toString.splitOn " ").filter (· ≠ "") with
   | "cast" :: rest => Driver.Cast.handle rest
   | "page" :: rest => Driver.Page.handle rest
   | "hash" :: rest => Driver.Hash.handle rest
+  | "stream" :: rest => Driver.Streamer.handle rest
   | _ => "bad-op"
 
 partial def loop (hin hout : IO.FS.Stream) : IO Unit := do
